@@ -549,8 +549,56 @@ def r10_periodic_sides(repo: Repo, rep):
         rep.undecided(R, init.site(), init.fq, "both side samplers assigned on the first path", f"{seen} found")
 
 
+def r11_preevaluated_data_shape(repo: Repo, rep):
+    R = rep.rule("R-C04-11", "data pre-evaluated at construction (static samplers) has the batch axes of the data evaluated in forward: a condition that inserts a NON-leading axis into "
+                 "its points before it evaluates the data functions inserts the same axis into the pre-evaluated values", floor=1,
+                 why="IntegroPINNCondition evaluates on points of shape (n, 1, d); values pre-evaluated on (n, d) points have shape (n, k) and broadcast against (n, 1, k) to (n, n, k): "
+                     "the loss with a static sampler differs from the loss with the same points drawn afresh (0.74 instead of 0.54)")
+    cond = repo.cls(f"{COND}.Condition")
+    n = 0
+    for ci in repo.subclasses(cond, strict=True):
+        fw = ci.methods.get("forward")
+        init = ci.methods.get("__init__")
+        if fw is None or init is None:
+            continue
+        if not any(isinstance(c, ast.Call) and dump(c.func) == "self._setup_data_functions" for c in ast.walk(init.node)):
+            continue
+        # axes inserted into the drawn points before the data functions see them
+        inserted = []
+        for p in paths(fw.node):
+            if p.ret is RAISE or p.ret is None:
+                continue
+            for e in p.events:
+                if e.value is None:
+                    continue
+                for c in ast.walk(e.value):
+                    if isinstance(c, ast.Subscript) and dump(c.value) == "self.data_functions" or (isinstance(c, ast.Call) and isinstance(c.func, ast.Subscript) and dump(c.func.value) == "self.data_functions"):
+                        call = c if isinstance(c, ast.Call) else None
+                        if call is None or not call.args:
+                            continue
+                        arg = call.args[0]
+                        for u in ast.walk(arg):
+                            if isinstance(u, ast.Call) and isinstance(u.func, ast.Attribute) and u.func.attr == "unsqueeze":
+                                d = kwarg(u, "dim", 0)
+                                if d is not None and dump(d) not in ("0",):
+                                    inserted.append(dump(d))
+            break
+        if not inserted:
+            continue
+        n += 1
+        rep.saw(init), rep.saw(fw)
+        # the constructor must give the pre-evaluated values the same axis
+        fixes = [c for c in ast.walk(init.node) if isinstance(c, ast.Call) and isinstance(c.func, ast.Attribute) and c.func.attr == "unsqueeze" and ("data_functions" in dump(c) or "fun" in dump(c.func.value))]
+        own_setup = ci.methods.get("_setup_data_functions")
+        rep.check(R, bool(fixes) or own_setup is not None, init.site(), init.fq, f"pre-evaluated data gets the axis forward inserts (unsqueeze(dim={inserted[0]}))",
+                  "values pre-evaluated on the un-expanded points are used as they are", f"{ci.name}: pre-evaluated data lacks axis {inserted[0]}")
+    if n == 0:
+        rep.undecided(R, "src/torchphysics/problem/conditions", "-", "a condition that expands its points before the data functions", "none found")
+
+
 def run(repo: Repo, rep):
     r9_function_set_flag(repo, rep)
+    r11_preevaluated_data_shape(repo, rep)
     r10_periodic_sides(repo, rep)
     from .generic import g_arg_constructor_parameters
     g_arg_constructor_parameters(repo, rep, lambda m: ".conditions." in m, floor=10,
@@ -589,6 +637,7 @@ _C = "src/torchphysics/problem/conditions/condition.py"
 _P = "src/torchphysics/problem/spaces/points.py"
 _FW = "        x_coordinates, x = x.track_coord_gradients()\n\n        data = {}\n        for fun in self.data_functions:\n            data[fun] = self.data_functions[fun](x_coordinates)\n\n        y = self.module(x)\n\n        unreduced_loss = self.error_fn(\n            self.residual_fn(\n                {**y.coordinates, **x_coordinates, **self.parameter.coordinates, **data}"
 MUTANTS = [
+    dict(id="C04-M61", file=_C, old="                    fn.fun = fn.fun.unsqueeze(1)\n", new="                    pass\n", rule="R-C04-11", what="pre-evaluated integro data without the points' middle axis (the repaired defect)"),
     dict(id="C04-M60", file=_C, old="            y = y[..., list(model_out.space.keys())]\n", new="", rule="R-C04-5", what="target columns paired by position (the repaired defect)"),
     dict(id="C04-M1", file=_C, old="        return torch.sum(torch.square(x), dim=-1)", new="        return torch.mean(torch.square(x), dim=-1)", rule="R-C04-5", what="mean over components"),
     dict(id="C04-M2", file=_C, old="        return torch.sum(torch.square(x), dim=-1)", new="        return torch.sum(torch.square(x), dim=0)", rule="R-C04-5", what="sum over points"),
